@@ -64,7 +64,7 @@ pub fn judge_name(ty: &str, n: &str, ns_mode: u8) -> Option<Fail> {
     let with_ns = ns_mode == 1;
     let s = match ns_mode {
         1 => format!("pkg:{ty}/g/{}", enc_all(n)),
-        2 => format!("pkg:{ty}///{}", enc_all(n)),
+        2 | 4 | 5 => format!("pkg:{ty}///{}", enc_all(n)),
         3 => format!("pkg:{ty}//{}", enc_all(n)),
         _ => format!("pkg:{ty}/{}", enc_all(n)),
     };
@@ -74,6 +74,8 @@ pub fn judge_name(ty: &str, n: &str, ns_mode: u8) -> Option<Fail> {
         1 => b.with_namespace("g"),
         2 => b.with_namespace("//"),
         3 => b.with_namespace("/"),
+        4 => b.with_namespace("///"),
+        5 => b.with_namespace("/////"),
         _ => b,
     };
     let built = obs::build(b).map(|p| Snap::of(&p));
@@ -83,7 +85,7 @@ pub fn judge_name(ty: &str, n: &str, ns_mode: u8) -> Option<Fail> {
         match out {
             Out::Ok(snap) => {
                 if expect_refused {
-                    return Some(Fail::tagged("maven-accepted-without-namespace", path, format!("{path} path accepted maven name {n:?} without a namespace (namespace mode {ns_mode}: 0 absent, 2 \"//\", 3 \"/\")")));
+                    return Some(Fail::tagged("maven-accepted-without-namespace", path, format!("{path} path accepted maven name {n:?} without a namespace (namespace mode {ns_mode}: 0 absent, 2 \"//\", 3 \"/\", 4 \"///\", 5 \"/////\")")));
                 }
                 if snap.name != want_name {
                     let d = snap.name.chars().zip(want_name.chars()).find(|(a, b)| a != b).map(|(a, b)| format!("got U+{:04X} want U+{:04X}", a as u32, b as u32)).unwrap_or_else(|| "length".into());
@@ -169,7 +171,7 @@ fn name_case(ctx: &mut Ctx, ty: &'static str, n: &str, counter: &'static str) {
     let mut fail = judge_name(ty, n, wns);
     if ty == "maven" {
         // maven without a namespace: absent, or spelled with slashes only — both entry points must refuse
-        for mode in [0u8, 2, 3] {
+        for mode in [0u8, 2, 3, 4, 5] {
             if fail.is_some() {
                 break;
             }
